@@ -804,6 +804,27 @@ func ruleRespondOnce(r *Run) {
 			r.Bad(rule, name, "emitError(422)", r.P.pos(es.call.Pos()), "emitError is not (only) the 422 answer to an undecodable request")
 		}
 	}
+	// and emitError writes the status it was asked to write: the code handed to WriteHeader is
+	// its own parameter, not something worked out from the error (a rule such as "anything
+	// that is not a DecodeError is our own failure: 500" turns a malformed request into a 500
+	// whenever an error reaches it unmarked)
+	if ee := r.P.Fn("pebbles.emitError"); ee != nil && len(ee.Params) >= 2 {
+		for _, ins := range allInstrs(ee) {
+			ci, ok := ins.(ssa.CallInstruction)
+			if !ok || !strings.HasSuffix(calleeName(ci.Common()), "ResponseWriter.WriteHeader") && !strings.HasSuffix(calleeName(ci.Common()), "ResponseWriter).WriteHeader") {
+				continue
+			}
+			args := ci.Common().Args
+			if len(args) == 0 {
+				continue
+			}
+			v := viaCell(unwrap(args[len(args)-1]))
+			_, isParam := v.(*ssa.Parameter)
+			r.Check(isParam, rule, fnName(ee), "status written is the status asked for", r.P.pos(ins.Pos()),
+				"WriteHeader receives emitError's own code parameter",
+				"emitError works out the status itself instead of writing the one its caller chose: the 422 of an undecodable request can turn into another status depending on what kind of error value reached it")
+		}
+	}
 }
 
 // amrSite finds the AsyncMapReduce call in fn and resolves its map and reduce closures.
